@@ -138,6 +138,11 @@ Proof. exact hex4_is_the_stores. Qed.
 Theorem c07_translation_complete : src_problems_chunk = 0%nat.
 Proof. exact chunk_translated. Qed.
 
+Theorem c07_hex_digit_is_the_source_table :
+  map fst src_hex_digit_table = map N.of_nat (seq 0 16) /\
+  forallb (fun e => hex_digit (fst e) =? snd e) src_hex_digit_table = true.
+Proof. exact hex_digit_table_tie. Qed.
+
 Print Assumptions c07_size_line_correct.
 Print Assumptions c07_piece_max_ok.
 Print Assumptions c07_decode_encode.
@@ -153,3 +158,4 @@ Print Assumptions c07_oracle_sound.
 Print Assumptions c07_source_layout.
 Print Assumptions c07_hex4_is_the_source_stores.
 Print Assumptions c07_translation_complete.
+Print Assumptions c07_hex_digit_is_the_source_table.
